@@ -1,3 +1,214 @@
 package main
 
-func runCanariesImpl(dir string) string { return "" }
+import (
+	"fmt"
+	"go/ast"
+	"os"
+	"strings"
+
+	"golang.org/x/tools/go/ssa"
+)
+
+const canaryPkg = "canarymod/canary"
+
+// runCanariesImpl analyses checker/testdata/canary with the same engines the properties
+// use and compares every verdict with the expected one. "" means all engines armed.
+func runCanariesImpl(dir string) string {
+	w, err := loadWorldMin(dir, 1)
+	if err != nil {
+		return "canary module does not load: " + err.Error()
+	}
+	if os.Getenv("DBG_CANARY") != "" {
+		for _, f := range w.SSAFuncs {
+			fmt.Println("SSAFUNC", f.String())
+		}
+	}
+	var fails []string
+	expect := func(name string, wantViolation bool, got string) {
+		if wantViolation && got == "" {
+			fails = append(fails, name+": rule stayed silent on its bad example")
+		}
+		if !wantViolation && got != "" {
+			fails = append(fails, name+": rule fired on its good example: "+got)
+		}
+	}
+	fn := func(name string) *FuncInfo {
+		for _, k := range []string{canaryPkg + "." + name, "(*" + canaryPkg + "." + name, "(" + canaryPkg + "." + name} {
+			if fi := w.fn(k); fi != nil {
+				return fi
+			}
+		}
+		for k, fi := range w.Funcs {
+			if strings.HasSuffix(k, "."+name) || strings.HasSuffix(k, ")."+name) {
+				return fi
+			}
+		}
+		return nil
+	}
+	need := func(name string) *FuncInfo {
+		fi := fn(name)
+		if fi == nil || fi.SSA == nil {
+			fails = append(fails, "canary function "+name+" not found")
+			return nil
+		}
+		return fi
+	}
+	isValidate := nameIs(canaryPkg + ".validate")
+
+	// must-pass-through
+	for _, t := range []struct {
+		name string
+		bad  bool
+	}{{"MustGood", false}, {"MustBad", true}, {"MustBadSkipped", true}} {
+		if fi := need(t.name); fi != nil {
+			_, v := w.mustPassOK(fi.SSA, isValidate, -1, "validate")
+			expect("mustcall/"+t.name, t.bad, v)
+		}
+	}
+	// error propagation (with wrapper summaries, defer-spilled results, shared return blocks)
+	for _, t := range []struct {
+		name string
+		bad  bool
+	}{{"ErrGoodWrappedSpilled", false}, {"ErrGoodSharedReturn", false}, {"ErrBadSwallowed", true}} {
+		if fi := need(t.name); fi != nil {
+			cs := callsIn(fi.SSA, false, isValidate)
+			if len(cs) != 1 {
+				fails = append(fails, "errprop/"+t.name+": validate call not found")
+				continue
+			}
+			_, v := w.errPropagatesAt(fi.SSA, cs[0], -1, "validate")
+			expect("errprop/"+t.name, t.bad, v)
+		}
+	}
+	{
+		_, viols, _, _ := w.errChain(canaryPkg+".validate", 6)
+		wantIn := []string{"chainMidBad", "ErrBadDiscarded", "ErrBadSwallowed", "MustBad"}
+		for _, wnt := range wantIn {
+			found := false
+			for _, v := range viols {
+				if strings.Contains(v, wnt) {
+					found = true
+				}
+			}
+			if !found {
+				fails = append(fails, "errchain: the dropped error in "+wnt+" was not reported")
+			}
+		}
+		for _, v := range viols {
+			for _, good := range []string{"chainMid ", "ChainTop ", "MustGood", "ErrGoodWrappedSpilled", "ErrGoodSharedReturn"} {
+				if strings.Contains(v, canaryPkg+"."+strings.TrimSpace(good)+" ") || strings.HasSuffix(v, "."+strings.TrimSpace(good)) {
+					fails = append(fails, "errchain: false report on "+good+": "+v)
+				}
+			}
+		}
+	}
+	// each-iteration
+	for _, t := range []struct {
+		name string
+		bad  bool
+	}{{"EachGood", false}, {"EachBad", true}} {
+		if fi := need(t.name); fi != nil {
+			loops := w.rangeLoops(fi, identNamed("items"))
+			if len(loops) != 1 {
+				fails = append(fails, "each/"+t.name+": loop not found")
+				continue
+			}
+			skips := []skipSpec{{Cond: func(e ast.Expr) bool {
+				se, ok := e.(*ast.SelectorExpr)
+				return ok && se.Sel.Name == "Hidden"
+			}, Pol: true, Desc: "hidden"}}
+			_, v := w.eachIteration(fi, w.cfgOf(fi), loops[0], w.appendTo(fi, identNamed("out")), skips, false)
+			expect("each-iteration/"+t.name, t.bad, v)
+		}
+	}
+	// dominating guards
+	for _, t := range []struct {
+		name string
+		bad  bool
+	}{{"IdGood", false}, {"IdBad", true}} {
+		if fi := need(t.name); fi != nil {
+			v := ""
+			n := 0
+			allInstrs(fi.SSA, false, func(_ *ssa.Function, _ *ssa.BasicBlock, _ int, ins ssa.Instruction) {
+				if _, ok := ins.(*ssa.MapUpdate); !ok {
+					return
+				}
+				n++
+				ok := false
+				for _, f := range guardsOf(ins) {
+					cnd, p := unwrapNot(f.Cond, f.Pol)
+					if !p && isCommaOk(cnd) && sliceOf(cnd).hasFieldNamed("byKey") {
+						ok = true
+					}
+				}
+				if !ok {
+					v = "insert not guarded by a miss test"
+				}
+			})
+			if n != 1 {
+				fails = append(fails, "guardedby/"+t.name+": map update not found")
+			}
+			expect("guardedby/"+t.name, t.bad, v)
+		}
+	}
+	// who-writes with inner maps, helper parameters and re-assignment
+	{
+		reg := w.extType(modPath+"/"+canaryPkg, "registry")
+		ws := w.structStateWrites(reg, "byKey")
+		got := map[string]string{}
+		for _, x := range ws {
+			got[x.Fn[strings.LastIndex(x.Fn, ".")+1:]] += x.Kind + ","
+		}
+		for fnName, kind := range map[string]string{"IdGood": "insert", "IdBad": "insert", "Reset": "assign", "newRegistry": "assign", "insertInto": "insert"} {
+			if !strings.Contains(got[fnName], kind) {
+				fails = append(fails, fmt.Sprintf("whowrites: %s of registry.byKey in %s not recognised (got %v)", kind, fnName, got))
+			}
+		}
+	}
+	// value receivers leaking field addresses
+	{
+		esc := strings.Join(w.valueRecvFieldAddrEscapes(), "\n")
+		if !strings.Contains(esc, "LeakBad") {
+			fails = append(fails, "recv-addr: holder.LeakBad (value receiver returning &h.c) not reported")
+		}
+		if strings.Contains(esc, "LeakGood") || strings.Contains(esc, "TagGood") {
+			fails = append(fails, "recv-addr: false report: "+esc)
+		}
+	}
+	// slash collapsing
+	for _, t := range []struct {
+		name string
+		bad  bool
+	}{{"CollapseGood", false}, {"CollapseBad", true}} {
+		if fi := need(t.name); fi != nil {
+			v := w.typedSlashCollapse(fi)
+			msg := ""
+			if !v.Collapses {
+				msg = "does not collapse runs of any length"
+			}
+			expect("slash-collapse/"+t.name, t.bad, msg)
+		}
+	}
+	// value normalisation terminates on loop phis
+	if fi := need("LoopPhi"); fi != nil {
+		allInstrs(fi.SSA, false, func(_ *ssa.Function, _ *ssa.BasicBlock, _ int, ins ssa.Instruction) {
+			if v, ok := ins.(ssa.Value); ok {
+				_ = stripTrivial(v)
+			}
+		})
+	}
+	// pure helpers
+	if octalOnly(`^(0?[0-7]{3})?$`) != "" {
+		fails = append(fails, "regex-lang: the shipped permission pattern is rejected")
+	}
+	for _, bad := range []string{`^[0-9]{3}$`, `^0?[0-7]{3,6}$`, `[0-7]{3}`, `^(0?[0-7]+)?$`} {
+		if octalOnly(bad) == "" {
+			fails = append(fails, "regex-lang: pattern "+bad+" wrongly accepted as octal<=07777")
+		}
+	}
+	if len(fails) > 0 {
+		return strings.Join(fails, "; ")
+	}
+	return ""
+}
+
